@@ -190,6 +190,30 @@ CHECKS["C18"] = dict(
          "Approximate trimming (~) is modelled as exact trimming (a permitted outcome).",
 )
 
+CHECKS["C14"] = dict(
+    category="proof", design_ref="DESIGN.md §6 C14", engine="codec+exec",
+    technique="Lean 4 theorems (the replicated log entry decodes to exactly the submitted argument vector for every byte string; applying it = the "
+              "standalone meaning, reply and keyspace; base64 round trip; base64 text is JSON-inert; the encoder's closing quote ends the string for "
+              "arbitrary Data/ID bytes; kernel-decided negative witnesses for the old space-joined codec) + byte-exact differential of the wire model "
+              "against the real json.Marshal/json.Unmarshal on the cluster path + every command family executed through the cluster path and judged by "
+              "the standalone keyspace model",
+    text="Cluster/Codec.lean models what a cluster node appends to the log for a command - json.Marshal of raftexample.RaftProposal{Data, Args, ID}: JSON "
+         "string escaping as encoding/json does it (HTML escaping, control bytes, U+2028/9, U+FFFD for every byte outside a well-formed UTF-8 sequence, "
+         "per utf8.DecodeRune's table) for arbitrary bytes, []byte as padded standard base64, null for nil, omitempty - and what json.Unmarshal hands to "
+         "the apply loop. Props/C14.lean proves C14_holds: for every proposal id and every non-empty argument vector over all byte strings the entry "
+         "decodes to exactly that vector and a replica applying it computes exactly Exec.exec's reply and keyspace (the model all exec-engine properties "
+         "are judged with) from any prior keyspace; plus base64_roundtrip, b64_alphabet_json_safe, skip_jsonEscape, the nil-element and omitempty "
+         "cases, and decided witnesses that the previous codec (space-join, JSON string, split) turned SET k \"a b\" into four words, 0xff into U+FFFD "
+         "and was not injective. Tie 1 (codec): generated vectors (binary alphabet, UTF-8 edge cases, every single byte, every length 0..20, nil "
+         "elements, PUBLISH/SUBSCRIBE case variants, the empty array) go through server.VerifClusterRoundTrip and RaftProposal.ToBytes/json.Unmarshal; "
+         "wire bytes, filter decision, decoded Args/Data/ID must equal the model's, and the decoded Args the submitted ones. Tie 2 (cluster-path): "
+         "programs of every command family run through the same path (VERIF_CLUSTER_PATH=1) and every reply and keyspace dump is compared with the "
+         "standalone model.",
+    note="Trusted: Lean kernel (propext, Classical.choice, Quot.sound), harness/driver/hooks, Go's encoding/json and encoding/base64 (modelled, compared byte "
+         "for byte on every run, not verified). Raft ordering/agreement is C15/C07, not part of this check; the path is exercised without the network. "
+         "Partial: PUBLISH/SUBSCRIBE are refused by the cluster filter (C14_submit_same_meaning_partial carries clusterAccepts).",
+)
+
 CHECKS["C15"] = dict(
     category="proof", design_ref="DESIGN.md §6 C15", engine="raftsim",
     technique="Lean 4 theorems (abstract Raft L0: five safety theorems for every cluster size and schedule; refinement L1 -> L0; executable handler "
